@@ -433,6 +433,14 @@ class Parser:
             return True
         return False
 
+    def __near(self, text: bytes) -> str:
+        """Return the character located at the lexer's current position.
+
+        The lexer works on bytes: its position is a byte offset and
+        can't be used to index the decoded text.
+        """
+        return text[self.lexer.pos :].decode("utf-8", "replace")[:1]
+
     def parse(self, text: bytes) -> bool:
         """The parser entry point.
 
@@ -467,7 +475,7 @@ class Parser:
                             msg = "{} found while {} expected near '{}'".format(
                                 ttype,
                                 "|".join(self.__expected),
-                                text.decode()[self.lexer.pos],
+                                self.__near(text),
                             )
                         else:
                             msg = "%s found while %s expected at end of file" % (
@@ -479,8 +487,8 @@ class Parser:
 
                 if not self.__command(ttype, tvalue):
                     msg = "unexpected token '%s' found near '%s'" % (
-                        tvalue.decode(),
-                        text.decode()[self.lexer.pos],
+                        tvalue.decode("utf-8", "replace"),
+                        self.__near(text),
                     )
                     raise ParseError(msg)
             if self.__expected_brackets:
